@@ -201,6 +201,14 @@ Send(d, payload, nonce) ==
   /\ sent' = [sent EXCEPT ![d] = Append(@, payload)]
   /\ UNCHANGED <<hs, cp, sp, buf, rxoff, delivered, dead, eof, got, hit>>
 ServerAck(nonce) == sent["s2c"] = <<>> /\ Send("s2c", <<>>, nonce)
+\* --- the sender is handed, once more, a packet it has sent before (a retry; one request offered to several
+\*     connections): a packet is a value - payload and nonce - and sending it does not use it up or alter it.
+\*     It goes out as a new frame with the same nonce and payload at the stream's current position.
+Resend(d, k, nonceOfK) == k >= 1 /\ k <= Len(sent[d]) /\ Send(d, sent[d][k], nonceOfK)
+\* --- time passes.  The deadline of the context a connection was dialled under bounds its establishment only;
+\*     on an established connection neither that deadline nor any other passing of time is a fault: no
+\*     variable changes, so whatever is sent afterwards must still be delivered.
+TimePasses == UNCHANGED <<hs, cp, sp, wire, buf, txoff, rxoff, sent, delivered, dead, eof, got, units, hit>>
 
 \* --- a sender that stops after the four length bytes of a frame announcing n (n may be out of bounds):
 \*     the stream ends inside frame Len(sent[d]) + 1
